@@ -72,6 +72,10 @@ type Conts struct {
 	SF  []float32
 	SE  []Empty
 	ME  map[string]Empty
+	MPE map[vu.Pt]Empty
+	MLK map[Leaf]string
+	MEK map[Empty]int
+	SSS [][][]map[vu.Pt]Empty
 }
 
 type Deep3 struct {
